@@ -122,7 +122,8 @@ def resolve_sub(function_body, params: Dict, mappings: Dict[str, Dict], conditio
     # Whenever we receive a string, we need to resolve inlined variables
     if isinstance(function_body, list):
         text, custom_replacements = function_body
-        replacements.update(resolve(custom_replacements, params, mappings, conditions))
+        # The custom replacements are only visible inside this Fn::Sub
+        replacements = {**params, **resolve(custom_replacements, params, mappings, conditions)}
     else:
         text = function_body
     for match in CONTAINS_CF_PARAM.findall(text):
